@@ -4,7 +4,7 @@ from vlib import core, gen, behave, levelb, spec
 from vlib.props import c05
 
 LEVEL = "other"
-EXPLANATION = ("Partial proof + search. Proved in Lean: helpers_stateless (regenerated template facts: one embedded field, no package-level variable, helpers are methods on the "
+EXPLANATION = ("The lock/cache protocol is also modelled for ALL services and caches at once (one mutex per service id, cache 0 = container-wide, cache c+1 = bag of context c, a global allocation counter; Model/RuntimeConcMulti.lean): multi_reachable_inv, at_most_once_each (every shared service at most once, every contextual service at most once per context, whatever other threads do elsewhere), instances_never_shared (two different (cache, service) pairs never hold the same instance) for unboundedly many threads and arbitrary interleavings. Partial proof + search. Proved in Lean: helpers_stateless (regenerated template facts: one embedded field, no package-level variable, helpers are methods on the "
                "container) and, over the lock/cache protocol of get as a transition system with unboundedly many threads and arbitrary interleavings, reachable_inv / at_most_once "
                "(a shared service, a parameter, or a contextual service within one bag is successfully constructed at most once), cached_then_hit and cache_monotone. The per-id "
                "mutex enters by its contract (one holder). NOT provable in this family: data-race freedom in the Go memory-model sense, the runtime library's real lock "
